@@ -12,9 +12,9 @@ import (
 // schedFiles lists the repo files instrumented for the controlled scheduler
 // with their per-file configuration.
 var schedFiles = map[string]instr.SchedConfig{
-	"internal/dag/graph_walker.go":            {MapRanges: []string{"w.graph.nodes"}},
-	"internal/worker/task_worker_pool.go":     {},
-	"internal/maps/mutex_map.go":              {},
+	"internal/dag/graph_walker.go":                   {MapRanges: []string{"w.graph.nodes"}},
+	"internal/worker/task_worker_pool.go":            {},
+	"internal/maps/mutex_map.go":                     {},
 	"internal/output/handlers/dir_output_handler.go": {ChanRanges: []string{"errChan"}},
 	"internal/caching/backends/remote_wrapper.go":    {ChanRanges: []string{"errChan"}},
 }
